@@ -57,7 +57,7 @@ static GenUri mutate(Tape &t, const GenUri &u, int *kind) {
 
 static Fields gen(Tape &t) {
   Fields f;
-  int arm = t.weighted({2, 5, 2, 3});
+  int arm = t.weighted({2, 5, 2, 3, 2});
   f.seti("arm", arm);
   if (arm == 0) { f.set("a", g_uri(t)); f.set("b", g_uri(t)); f.set("c", g_uri(t)); }
   else if (arm == 1) {
@@ -71,6 +71,11 @@ static Fields gen(Tape &t) {
     std::string s = g_uri(t);
     f.set("a", s); f.set("b", s); f.set("c", s);
     f.seti("variant", t.below(3));
+  } else if (arm == 4) {
+    // overlapping views of ONE buffer: a = [0, n-i), b = [j, n) or [0, n-j), c = [0, n): ranges of different URIs then
+    // start (or end) at the very same address although their texts differ
+    f.set("a", g_uri(t));
+    f.seti("i", t.below(7)); f.seti("j", t.below(7)); f.seti("bfront", t.below(2));
   } else {
     ops_to_fields(f, g_history(t, SEG_ANY, false, 6));
     f.seti("i", t.below(64)); f.seti("j", t.below(64)); f.seti("k", t.below(64));
@@ -157,6 +162,35 @@ template <class A> static Verdict check_type(const Fields &f, int *minDiff, bool
     *anyEqual3 = ab;
     return Verdict::pass();
   }
+  if (arm == 4) {
+    std::basic_string<Ch> T = widen<Ch>(f.get("a"));
+    size_t n = T.size();
+    std::unique_ptr<Ch[]> buf(new Ch[n]);
+    if (n) memcpy(buf.get(), T.data(), n * sizeof(Ch));
+    size_t ci = (size_t)f.geti("i") % (n + 1), cj = (size_t)f.geti("j") % (n + 1);
+    bool bfront = f.geti("bfront") != 0;
+    typename A::Uri a, b, c;
+    const Ch *ep;
+    int ra = A::ParseSingleUriEx(&a, buf.get(), buf.get() + (n - ci), &ep);
+    int rb = bfront ? A::ParseSingleUriEx(&b, buf.get() + cj, buf.get() + n, &ep) : A::ParseSingleUriEx(&b, buf.get(), buf.get() + (n - cj), &ep);
+    int rcc = A::ParseSingleUriEx(&c, buf.get(), buf.get() + n, &ep);
+    struct Cl { typename A::Uri *x, *y, *z; ~Cl() { A::FreeUriMembers(x); A::FreeUriMembers(y); A::FreeUriMembers(z); } } cl{&a, &b, &c};
+    // a cut that falls inside a token does not give a valid reference: fall back to the full text for that view
+    if (ra) { A::FreeUriMembers(&a); ra = A::ParseSingleUriEx(&a, buf.get(), buf.get() + n, &ep); }
+    if (rb) { A::FreeUriMembers(&b); rb = A::ParseSingleUriEx(&b, buf.get(), buf.get() + n, &ep); }
+    if (ra || rb || rcc) return Verdict::discard();
+    bool ab, bc, ac;
+    Verdict v = judge<A>(&a, &b, true, "views a~b of one buffer", &ab, &d);
+    if (v.kind != Verdict::PASS) return v;
+    *minDiff = d;
+    v = judge<A>(&b, &c, true, "views b~c of one buffer", &bc, &d);
+    if (v.kind != Verdict::PASS) return v;
+    v = judge<A>(&a, &c, true, "views a~c of one buffer", &ac, &d);
+    if (v.kind != Verdict::PASS) return v;
+    VF_REQUIRE(!(ab && bc) || ac, "%s: uriEqualsUri is not transitive on views of one buffer", A::name());
+    *anyEqual3 = ab;
+    return Verdict::pass();
+  }
   // arm 3: objects out of a history
   World<A> w;
   std::vector<Op> ops = ops_from_fields(f);
@@ -180,7 +214,8 @@ template <class A> static Verdict check_type(const Fields &f, int *minDiff, bool
 
 static Verdict check(const Fields &f) {
   int arm = (int)f.geti("arm");
-  if (arm <= 2) { for (const char *k : {"a", "b", "c"}) if (!uriref_matcher().matches(f.get(k))) return Verdict::discard(); }
+  if (arm == 4) { if (!uriref_matcher().matches(f.get("a"))) return Verdict::discard(); }
+  else if (arm <= 2) { for (const char *k : {"a", "b", "c"}) if (!uriref_matcher().matches(f.get(k))) return Verdict::discard(); }
   else for (auto &op : ops_from_fields(f)) if (op.kind == 'P' && !uriref_matcher().matches(op.text)) return Verdict::discard();
   int md = -1; bool eq3 = false;
   Verdict v = check_type<Api<char>>(f, &md, &eq3);
@@ -191,7 +226,7 @@ static Verdict check(const Fields &f) {
   S.hit("arm=" + std::to_string(arm));
   if (arm == 1) S.hit("mutation=" + std::to_string(f.geti("mut")));
   S.hit(eq3 ? "pair=equal" : "pair=different");
-  if (md == 1 || (eq3 && arm != 0)) S.nontrivial(f.text(), arm <= 2 ? "a=" + esc(f.get("a")) + " b=" + esc(f.get("b")) : f.text());
+  if (md == 1 || (eq3 && arm != 0)) S.nontrivial(f.text(), arm <= 2 || arm == 4 ? "a=" + esc(f.get("a")) + " b=" + esc(f.get("b")) : f.text());
   if (md == 1) S.hit("differ_in_exactly_one_component");
   return Verdict::pass();
 }
